@@ -11,8 +11,9 @@ PROOF_MODULES = []
 OBLIGATIONS = [
     "C46/P_lde_sound.v", "C46/P_lde_indices_in_bounds.v", "C46/P_lde_antichain.v",
     "C46/P_lde_complete.v", "C46/P_lde_exact.v", "C46/P_lde_fuel_mono.v",
-    "C46/P_lde_terminates_small.v", "C46/P_hilbert_box_correct.v",
-    "C46/P_lde_from_refuted.v", "C46/P_nonvacuous.v",
+    "C46/P_lde_terminates_small.v", "C46/P_hilbert_box_correct.v", "C46/P_is_minimal_sol_correct.v",
+    "C46/P_lde_from_guarded.v", "C46/P_lde_from_refuted.v", "C46/P_order_correct.v", "C46/P_is_minimum_correct.v",
+    "C46/P_nonvacuous.v",
 ]
 
 BOX = {0: 1, 1: 12, 2: 12, 3: 9, 4: 6, 5: 4, 6: 3}
@@ -28,6 +29,10 @@ def case(rows, q, basis0=None, box=None):
         toks += [len(r)] + list(r)
     return " ".join(str(x) for x in toks)
 
+
+# the witness of C46_lde_from_refuted (coq/C46/LdeProofs.v): `basis` = {(1,1), (2,2)} on entry
+REFUTED_WITNESS = None   # set below
+REFUTED_RESULT = "B:1,1|2,2|1,1"
 
 CORPUS = [
     case([[1, -1]], 2),
@@ -50,6 +55,10 @@ CORPUS = [
     case([[1, -1]], 2, [[5]]), case([[-1, 1]], 2, [[0]]), case([[-1, 1]], 2, [[]]),
     case([[1, -1, 2]], 3, [[0, 0, 0]]), case([[2, -3, 1]], 3, [[1, 1, 1, 7]]),
 ]
+
+
+REFUTED_WITNESS = case([[1, -1]], 2, [[1, 1], [2, 2]])
+CORPUS.append(REFUTED_WITNESS)
 
 
 def rand_matrix(rng, tier):
@@ -99,6 +108,29 @@ def rand_case(rng, tier):
     return case(rows, q)
 
 
+def min_case(rng):
+    """unit level: is_minimum / order on a vector and a small basis, entries 0..3 so that equal and
+    comparable vectors are frequent"""
+    q = rng.choice([1, 2, 2, 3, 3, 4])
+    n = rng.choice([0, 1, 1, 2, 3, 4])
+    hi = rng.choice([1, 2, 3])
+    t = [rng.randint(0, hi) for _ in range(q)]
+    basis = []
+    for _ in range(n):
+        r = rng.random()
+        if r < 0.2:
+            b = list(t)                                   # equal
+        elif r < 0.45:
+            b = [max(0, x - rng.randint(0, 1)) for x in t]  # below
+        elif r < 0.6:
+            b = [x + rng.randint(0, 1) for x in t]          # above
+        else:
+            b = [rng.randint(0, hi) for _ in range(q)]
+        basis.append(b)
+    toks = ["M", q, n] + t + [x for b in basis for x in b]
+    return " ".join(str(x) for x in toks)
+
+
 def exhaustive(p, q, m):
     for ent in itertools.product(range(-m, m + 1), repeat=p * q):
         yield case([list(ent[i * q:(i + 1) * q]) for i in range(p)], q)
@@ -121,6 +153,7 @@ def run(ctx):
     model = ctx.build_model("C46", "C46/Extract.v", "c46_main.ml", "lde_model")
     n = 1500 if ctx.tier == "quick" else 20000
     cases = list(CORPUS) + [rand_case(ctx.rng, ctx.tier) for _ in range(n)]
+    cases += [min_case(ctx.rng) for _ in range(n // 3)]
     if ctx.tier == "quick":
         cases += list(exhaustive(1, 3, 2)) + list(exhaustive(1, 2, 4))
     else:
@@ -130,14 +163,17 @@ def run(ctx):
     explore(ctx, drv, model, cases)
     if ctx.broken and not ctx.violations:
         # a proof or the tie broke: search harder for a concrete failing matrix
-        extra = [rand_case(ctx.rng, "thorough") for _ in range(6000)] + list(exhaustive(2, 3, 2))
+        extra = ([rand_case(ctx.rng, "thorough") for _ in range(6000)] + list(exhaustive(2, 3, 2))
+                 + [min_case(ctx.rng) for _ in range(2000)])
         explore(ctx, drv, model, extra, search=True)
     ctx.cov["distinct_nontrivial"] = len(ctx.stats["nontrivial"])
     ctx.cov["rule"] = ("integer matrices p x q (p <= 3, q <= 5, entries mostly in [-3,3], a quarter up to +-7) from one PRNG, shaped "
                        "towards the case splits of the proofs (zero / repeated / negated columns, dependent or zero rows, one-signed rows, "
                        "0/+-1 matrices, empty shapes), a fixed corpus, complete small universes (quick: 1x3 in [-2,2], 1x2 in [-4,4]; thorough: "
                        "1x2 [-6,6], 1x3 [-3,3], 1x4 [-3,3], 2x3 [-2,2], 2x4 [-1,1], 3x3 [-1,1]), and 10% calls with a non-empty `basis` on entry; "
-                       "a case is non-trivial when the library returns at least two vectors or a vector of 1-norm >= 3; distinct = distinct case lines")
+                       "plus unit-level cases for is_minimum/order (vectors with entries 0..3, basis elements equal / below / above / random); "
+                       "a case is non-trivial when the library returns at least two vectors or a vector of 1-norm >= 3 (unit level: a non-empty basis); "
+                       "distinct = distinct case lines")
     ctx.assumptions += [
         "termination of the while loop is NOT proved in general (Contejean-Devie's termination argument is analytic): all theorems are about "
         "runs that end (`= Ok basis`); lde_fuel_mono shows the result does not depend on the fuel; lde_terminates_small proves termination by a "
@@ -164,8 +200,31 @@ def explore(ctx, drv, model, cases, search=False):
         canon, _, oracle = i.partition("\t#ORACLE:")
         mparts = m.split("\t")
         mcanon = mparts[0]
-        n0 = int(c.split()[3])
         rep = {"family": "C46", "case": c, "impl": i, "model": m}
+        if c.startswith("M"):
+            # unit level: is_minimum / order
+            if oracle:
+                kind = oracle.strip().split(":")[0]
+                key = {"order": "C46/order-wrong", "is_minimum": "C46/is-minimum-wrong"}.get(kind, "C46/wrong-output")
+                ctx.violation(key, "case `%s` (M q n, t, then the n basis vectors): library gives %s;%s" % (c, canon, oracle), rep)
+            elif "CRASH" in canon or "HANG" in canon or "UNCAUGHT" in canon:
+                ctx.violation("C46/crash", "case `%s`: is_minimum/order end with %s" % (c, canon[-40:]), rep)
+            elif canon != mcanon:
+                ndis += 1
+                if ndis <= 3:
+                    ctx.broken.append({"kind": "correspondence", "name": "C46 is_minimum/order",
+                                       "detail": "case `%s`\n model: %s\n impl:  %s" % (c, mcanon, canon)})
+            if int(c.split()[2]) > 0:
+                ctx.stats["nontrivial"].add(c)
+            continue
+        n0 = int(c.split()[3])
+        if c == REFUTED_WITNESS and not search:
+            # replay of the refutation witness on the real library (an observation about the in/out
+            # argument, outside the property's quantifier: reported as a note, never as a violation)
+            if canon == REFUTED_RESULT:
+                ctx.notes.append("C46_lde_from_refuted reproduces on the library: A = (1 -1) with basis = {(1,1),(2,2)} on entry returns (1,1),(2,2),(1,1)")
+            else:
+                ctx.notes.append("C46_lde_from_refuted no longer reproduces on the library (got %s)" % canon)
         got = parse_basis(canon)
         if got is not None and (len(got) >= 2 or any(sum(v) >= 3 for v in got)):
             ctx.stats["nontrivial"].add(c)
